@@ -42,6 +42,8 @@ type TxStep struct {
 	// Exec wraps Msgs into one authz.MsgExec whose grantee is account Exec-1 (0 = no wrapping).
 	Exec int    `json:"exec,omitempty"`
 	Note string `json:"note,omitempty"`
+	// Proofs lists the DID proofs the generator made for this tx (see ProofReg).
+	Proofs []ProofReg `json:"proofs,omitempty"`
 }
 
 // Step is one element of a history.
@@ -281,6 +283,7 @@ func (w *World) applyTx(ts *TxStep) error {
 	if err := w.ensureBlock(); err != nil {
 		return err
 	}
+	w.RegisterProofs(ts.Proofs)
 	obs := &TxObs{Step: ts, Signed: map[string]bool{}, Time: w.C.Hdr.Time, Height: w.C.Hdr.Height}
 	w.LastTx = obs
 	for _, m := range ts.Msgs {
